@@ -682,6 +682,20 @@ class ObjInterp(BlockEval):
             self.folder.stack.pop()
         return outs
 
+    def checkpoint(self):
+        """Mark for `dirty`: position in the log of statements the evaluator could not follow, and the fork count."""
+        return (len(self.__dict__.setdefault("effect_log", [])), getattr(self, "forks", 0))
+
+    def dirty(self, mark, forks_matter=True):
+        """Why an evaluation since `mark` cannot be trusted against stateful stubs (a skipped statement / an unknown branch), or None."""
+        log = self.__dict__.setdefault("effect_log", [])
+        skipped = [t for k, t in log[mark[0]:] if not t.startswith(("logger.", "logging."))]
+        if skipped:
+            return "statement outside the evaluated subset: `%s`" % skipped[0]
+        if forks_matter and getattr(self, "forks", 0) != mark[1]:
+            return "a branch on a value the evaluator does not know"
+        return None
+
     def callm(self, obj, name, *args, **kw):
         """Method call on a model object, resolved through the class's MRO: same result convention as call1."""
         f = self.folder._find_method(obj, name)
